@@ -267,6 +267,14 @@ def execute(plan, ctx):
     served = seam.served
     # ---- clause 2: design, descriptors
     from rsatoolbox.simulation import make_design
+    c_first, p_first = make_design(nc, plan['n_part'])
+    try:
+        # the caller re-uses the vectors it was given (shuffles the presentation order, renumbers the partitions): a later
+        # design with the same arguments is still the canonical one
+        np.asarray(c_first)[...] = np.asarray(c_first)[::-1].copy() + 7
+        np.asarray(p_first)[...] = -1
+    except (ValueError, TypeError):
+        pass
     c0, p0 = make_design(nc, plan['n_part'])
     for part in range(plan['n_part']):
         conds = sorted(np.asarray(c0)[np.asarray(p0) == part].tolist())
